@@ -9,9 +9,9 @@
     the guards are verified analyses ([C12_must_have_sound], [C12_always_ne_sound], [C12_const_val_known]), and the
     unguarded statements are refuted by witnesses whose results are the REAL engine's on a db_total database. *)
 From Coq Require Import List String Bool Floats NArith.
-From PintV Require Import Common.Bytes Gen.C04 Model.PromQL Model.Source Model.PromSem Model.PromFrag Model.PromAlways
+From PintV Require Import Common.Bytes Gen.C04 Model.PromQL Model.Source Model.PromSem Model.PromFrag Model.PromAlways Model.PromClass
   Proofs.C04_lists Proofs.C04_transfer Proofs.C04_walk Proofs.C04_sound Proofs.C04_calls Proofs.C04_binops Proofs.C04_main
-  Proofs.C12_musthave Proofs.C12_join Proofs.C12_always Proofs.C12_static Proofs.C12_witness Proofs.C12_flag Proofs.C12_k3.
+  Proofs.C12_musthave Proofs.C12_join Proofs.C12_always Proofs.C12_static Proofs.C12_witness Proofs.C12_flag Proofs.C12_k3 Proofs.C12_top Proofs.C04_live Proofs.C12_complete.
 Import ListNotations.
 Open Scope string_scope.
 Open Scope list_scope.
@@ -355,4 +355,98 @@ Example C12_absent_labels_fixed :
   impossible_problems (walk0 k10_e) = [].
 Proof.
   split; [reflexivity|]. split; [eexists; repeat split; vm_compute; reflexivity | vm_compute; reflexivity].
+Qed.
+
+(** * The property as ONE theorem
+
+    For every expression [e] of the fragment, every database in which every series carries every label of [U]
+    ([db_total], the property's premise), every operation node [n] of [e] at any depth ([subterm]) and every dead-code
+    verdict [v] the analyser introduces at [n] ([emits]: exactly the conditions under which source.go sets IsDead there,
+    hence promql/impossible reports -- see [C12_join_flags], [C12_unless_flag], [C12_or_rhs_flag], [C12_static_partial]):
+    IF the verdict is outside the open known-finding classes K1 K2 K3 K6 K7 ([outside_classes]; the predicates of
+    Model/PromClass.v are the very definitions the harness mirrors in Go, cross-checked on every correspondence case)
+    AND inside the fragment where soundness is proved ([proved_fragment]: constant operands / [k7_free_vec] deciding
+    operand / per flagged label [must_have] or a [k3_free] driving side), THEN the flagged part contributes nothing
+    ([contributes_nothing]: the operation's rule admits the same result with the flagged operand replaced by the empty
+    vector; the operation returns nothing where that is what the report says).
+    What lies between the classes and the proved fragment (range functions and label_replace in a deciding operand,
+    calls in a driving side, ...) is covered by the engine oracle only. *)
+Theorem C12_impossible_sound : forall fmod fpow U db e,
+  db_total U db -> wf e = true ->
+  forall n v, subterm n e ->
+    emits fmod fpow n v -> outside_classes fmod fpow U n v -> proved_fragment fmod fpow U n v ->
+    contributes_nothing db n v.
+Proof. intros fmod fpow U db e Ht Hwf n v Hs. exact (impossible_sound fmod fpow U db Ht e Hwf n v Hs). Qed.
+Print Assumptions C12_impossible_sound.
+
+(** ... and [promql/impossible] reports NOTHING for an expression unless some operation node, at any depth, marks
+    something ([marks]: static folding applied to a comparison of always-returning branches, canJoin flagging some
+    pair, [unless on()] with an always-returning right branch, [or] with no left branch that can be empty): dead flags
+    have no other origin, whatever the nesting (induction over the whole analyser incl. Joins/Unless lists).  So every
+    "dead code in query" problem goes back to a verdict of one of the four kinds of [C12_impossible_sound]. *)
+Theorem C12_no_mark_no_problem : forall fmod fpow e,
+  (forall n, subterm n e -> ~ marks fmod fpow n) -> impossible_problems (walk_node fmod fpow e) = [].
+Proof. intros fmod fpow e H. exact (no_mark_no_impossible fmod fpow e H). Qed.
+Print Assumptions C12_no_mark_no_problem.
+
+(** every verdict of [emits] (join / unless on() / or) is such a mark *)
+Theorem C12_emits_marks : forall fmod fpow n v,
+  wf n = true -> v <> VStatic -> emits fmod fpow n v -> marks fmod fpow n.
+Proof.
+  intros fmod fpow n v Hwf Hv He. destruct n as [| | | | | | | | |op rb vm l r]; try (destruct v; exact He).
+  destruct v; try congruence; cbv beta iota delta [emits] in He; destruct vm as [vm|]; try destruct He; cbn [marks]; right.
+  - (* join: wf gives a pair of branches *)
+    left. cbn [wf] in Hwf. apply andb_true_iff in Hwf. destruct Hwf as [Hwf Hwr]. apply andb_true_iff in Hwf. destruct Hwf as [_ Hwl].
+    pose proof (walk_nonempty fmod fpow l Hwl) as Hl. pose proof (walk_nonempty fmod fpow r Hwr) as Hr.
+    assert (Hm : walk_node fmod fpow (many_side vm l r) <> [] /\ walk_node fmod fpow (other_side vm l r) <> [])
+      by (unfold many_side, other_side; destruct (vm_card vm); split; assumption).
+    destruct Hm as [Hm Ho].
+    destruct (walk_node fmod fpow (many_side vm l r)) as [|s0 ?] eqn:E1; [congruence|].
+    destruct (walk_node fmod fpow (other_side vm l r)) as [|rs ?] eqn:E2; [congruence|].
+    exists s0, rs. split; [left; reflexivity|]. split; [left; reflexivity|]. apply H0; left; reflexivity.
+  - right. left. destruct H0 as [Hon Hex]. auto.
+  - right. right. auto.
+Qed.
+
+(** the right hand side of [or] is marked dead exactly when no left hand branch can be empty *)
+Theorem C12_or_rhs_flag : forall vm lhs_can_be_empty s,
+  s_dead s = false -> s_dead (or_rhs_src vm lhs_can_be_empty s) = negb lhs_can_be_empty.
+Proof.
+  intros vm b s Hd. unfold or_rhs_src. destruct (negb b); [reflexivity|].
+  unfold set_op_default. destruct (String.eqb (s_operation s) ""); exact Hd.
+Qed.
+Print Assumptions C12_or_rhs_flag.
+
+(** where it can be decided syntactically, the proved fragment lies outside the classes *)
+Theorem C12_fragment_outside_classes : forall n,
+  (in_fragment n VStatic = true -> k1_class n = false /\ k6_class n = false) /\
+  (in_fragment n VOrRhs = true -> k2_class n = false).
+Proof.
+  intros n. destruct n as [| | | | | | | | |op rb vm l r]; try (split; discriminate). split.
+  - cbn [in_fragment]. intros H. repeat (apply andb_true_iff in H; destruct H as [H ?]).
+    apply negb_true_iff in H. subst rb. split; [reflexivity|].
+    cbn [k6_class]. destruct (is_comparison op); [|reflexivity]. rewrite H1, H0. reflexivity.
+  - cbn [in_fragment]. destruct vm as [vm|]; [|discriminate]. intros H.
+    apply andb_true_iff in H. destruct H as [H _]. apply andb_true_iff in H. destruct H as [Ho Hon].
+    destruct op; try discriminate. cbn [k2_class]. rewrite Hon. reflexivity.
+Qed.
+
+(** non-vacuity at depth: the verdict of [foo{a="1"} and sum without(a) (bar)] nested inside [abs(sum(...))] *)
+Definition top_n : expr := EBin OAnd false (Some ja_vm) ja_l ja_r.
+Definition top_e : expr := ECall "abs" [VVector] [EAgg ASum false [] None top_n].
+
+Example C12_impossible_sound_nonvacuous :
+  wf top_e = true /\ subterm top_n top_e /\
+  emits nanf nanf top_n VJoin /\ outside_classes nanf nanf U5 top_n VJoin /\ proved_fragment nanf nanf U5 top_n VJoin.
+Proof.
+  split; [reflexivity|]. split.
+  - apply (st_step top_n (EAgg ASum false [] None top_n) top_e); [left; reflexivity|].
+    apply (st_step top_n top_n (EAgg ASum false [] None top_n)); [left; reflexivity | apply st_refl].
+  - assert (Hpair : forall s0 rs, In s0 (walk0 ja_l) -> In rs (walk0 ja_r) ->
+                       can_join (join_view ja_vm s0) rs ja_vm = Some "a").
+    { intros s0 rs H1 H2. vm_compute in H1, H2. destruct H1 as [<-|[]]. destruct H2 as [<-|[]]. vm_compute. reflexivity. }
+    split; [|split].
+    + split; [discriminate|]. intros s0 rs H1 H2. rewrite (Hpair s0 rs H1 H2). discriminate.
+    + intros s0 rs lab H1 H2 Hj. rewrite (Hpair s0 rs H1 H2) in Hj. inversion Hj; subst. vm_compute. reflexivity.
+    + split; [reflexivity|]. intros s0 rs lab H1 H2 Hj. rewrite (Hpair s0 rs H1 H2) in Hj. inversion Hj; subst. vm_compute. reflexivity.
 Qed.
